@@ -1,8 +1,9 @@
 (* The IO shape of jennifer's render entry points (C10 at buffer level).
 
    tools/cmd/io2coq translates the body of every exported function of package jen that
-   receives the caller's io.Writer (File.Render, Statement/Group.RenderWithFile, and the
-   delegating Render methods) and of every exported function that calls package os
+   receives a writer of the caller - a parameter whose type implements io.Writer -
+   (File.Render, Statement/Group.RenderWithFile, and the delegating Render methods) and of
+   every exported function that calls package os
    (File.Save) into the tiny statement language below (Gen/IO.v, regenerated from /repo on
    every run).  This file gives
      - the language ([ev], [stmt]),
@@ -26,7 +27,9 @@ Inductive wkind :=
 | KOtherUse.     (* any other statement that mentions w *)
 
 Inductive ev :=
-| EvNewBuf (b : str)                  (* b := &bytes.Buffer{} / bytes.Buffer{} / new(bytes.Buffer) *)
+| EvNewBuf (b : str)                  (* b := &bytes.Buffer{} / bytes.Buffer{} / new(bytes.Buffer) / var b bytes.Buffer.
+                                         Names stand for go/types objects: a second object of the same
+                                         name is printed name#2 by the translator *)
 | EvDecl (x : str)                    (* var x T  (no initialiser) *)
 | EvRender (target buf : str)         (* target(.., buf, ..): a function of package jen receiving
                                          the LOCAL buffer buf as its io.Writer: x.render(f, buf, nil),
@@ -54,9 +57,11 @@ Inductive stmt :=
 | Do (e : ev)                         (* e with no error check (infallible, or its error is dropped) *)
 | Try (e : ev) (h : onerr)            (* e; if err != nil { h } *)
 | EvReturnNil                         (* return nil *)
-| EvCondNoFormat (a b : stmt)         (* if f.NoFormat { a } else { b } *)
+| EvCondNoFormat (a b : stmt)         (* if f.NoFormat { a } else { b }; also if !f.NoFormat { b } else { a };
+                                         a missing else is Nop; f is the receiver *)
 | If (cond : str) (a : stmt)          (* if cond { a }: cond printed, no call in it but len *)
-| For (over : str) (a : stmt).        (* for .. := range over { a } *)
+| For (over : str) (a : stmt).        (* for .. := range over { a }, or a for loop whose header only counts:
+                                         the body runs any number of times *)
 
 Definition block (l : list stmt) : stmt := fold_right Block Nop l.
 
@@ -64,7 +69,7 @@ Inductive ekind := EWriter | EFileSys | EDelegate.
 Record entry := mkentry {
   e_name : str;            (* "(*File).Render" *)
   e_kind : ekind;
-  e_writer : str;          (* name of the io.Writer parameter ([] for EFileSys) *)
+  e_writer : str;          (* names of the writer parameters, comma-separated ([] for EFileSys) *)
   e_path : str;            (* name of the first string parameter ([] when none) *)
   e_body : list stmt
 }.
@@ -206,38 +211,94 @@ Fixpoint local_ok (s : stmt) : bool :=
   | If _ a | For _ a => local_ok a
   end.
 
-(* drop sequencing and bare declarations *)
-Fixpoint flat (s : stmt) : list stmt :=
-  match s with
-  | Nop => []
-  | Block a b => flat a ++ flat b
-  | Do (EvDecl _) => []
-  | s => [s]
-  end.
-
 Definition returns_err (h : onerr) : bool :=
   match h with EvReturnErr | EvReturnWrapped => true | EvSwallowErr => false end.
 
-(* the formatting step: Some (output variable, source buffer, honours NoFormat) *)
-Definition fmt_step (s : stmt) : option (str * str * bool) :=
+(* ---- the formatting phase ----
+   The statements between the last local statement and the write decide WHAT is written: the
+   raw contents of a buffer, its formatted contents, or - under `if f.NoFormat` - one or the
+   other.  They are analysed by a small symbolic execution, so that the code may say it in
+   any of the equivalent ways:
+       var output []byte; if f.NoFormat { output = source.Bytes() } else { output, err = format.Source(source.Bytes()); check }
+       output := source.Bytes(); if !f.NoFormat { output, err = format.Source(source.Bytes()); check }
+       if !f.NoFormat { format; check } else { output = source.Bytes() }
+       b, err := format.Source(buf.Bytes()); check
+   [binding]: what is known about the output variable: (x, src, k) - x holds the contents of
+   buffer src, raw (ORaw), formatted (OFmt), or raw under NoFormat and formatted otherwise
+   (OSel).  go/format.Source has been called exactly when the value is a formatted one, and
+   its error left the function. *)
+Inductive oval := ORaw | OFmt | OSel.
+Definition binding := option (str * str * oval).
+
+Definition oval_eqb (a b : oval) : bool :=
+  match a, b with ORaw, ORaw | OFmt, OFmt | OSel, OSel => true | _, _ => false end.
+Definition binding_eqb (a b : binding) : bool :=
+  match a, b with
+  | None, None => true
+  | Some (x, s, k), Some (x', s', k') => str_eqb x x' && str_eqb s s' && oval_eqb k k'
+  | _, _ => false
+  end.
+
+(* a raw copy may be overwritten (nothing fallible has happened); a formatted value may not *)
+Definition can_rebind (cur : binding) : bool :=
+  match cur with None | Some (_, _, ORaw) => true | Some _ => false end.
+
+(* the two arms of `if f.NoFormat { a } else { b }`: raw in a and formatted in b is OSel;
+   otherwise both arms must agree *)
+Definition join_arms (ra rb : binding) : option binding :=
+  match ra, rb with
+  | Some (x, s, ORaw), Some (x', s', OFmt) =>
+    if str_eqb x x' && str_eqb s s' then Some (Some (x, s, OSel)) else None
+  | _, _ => if binding_eqb ra rb then Some ra else None
+  end.
+
+Fixpoint fmt_sym (s : stmt) (cur : binding) : option binding :=
   match s with
-  | Try (EvFormat x src) h => if returns_err h then Some (x, src, false) else None
+  | Nop => Some cur
+  | Block a b => match fmt_sym a cur with Some c => fmt_sym b c | None => None end
+  | Do (EvDecl _) => Some cur
+  | Do (EvBytes x src) => if can_rebind cur then Some (Some (x, src, ORaw)) else None
+  | Try (EvFormat x src) h =>
+    if can_rebind cur && returns_err h then Some (Some (x, src, OFmt)) else None
   | EvCondNoFormat a b =>
-    match flat a, flat b with
-    | [Do (EvBytes x src)], [Try (EvFormat x' src') h] =>
-      if str_eqb x x' && str_eqb src src' && returns_err h then Some (x, src, true) else None
+    match fmt_sym a cur, fmt_sym b cur with
+    | Some ra, Some rb => join_arms ra rb
     | _, _ => None
     end
   | _ => None
   end.
 
-(* body = pre ++ [format step into x from src; w.Write(x) with its error returned; return nil] *)
+(* the statements the formatting phase may be made of (used only to find where it starts:
+   it is the longest run of such statements before the write) *)
+Fixpoint is_fmt_stmt (s : stmt) : bool :=
+  match s with
+  | Nop | Do (EvDecl _) | Do (EvBytes _ _) | Try (EvFormat _ _) _ => true
+  | Block a b | EvCondNoFormat a b => is_fmt_stmt a && is_fmt_stmt b
+  | _ => false
+  end.
+Fixpoint span_fmt (r : list stmt) : list stmt * list stmt :=
+  match r with
+  | s :: r' => if is_fmt_stmt s then let (a, b) := span_fmt r' in (s :: a, b) else ([], r)
+  | [] => ([], [])
+  end.
+
+(* body = pre ++ fp ++ [w.Write(x) with its error returned; return nil], fp the formatting
+   phase, which leaves in x the formatted contents of src (nf = false) or, honouring NoFormat,
+   the raw or the formatted contents (nf = true) *)
 Definition io_parts (body : list stmt) : option (list stmt * str * str * bool) :=
   match rev body with
-  | EvReturnNil :: Try (EvWriteCaller KWrite _ x) EvReturnErr :: fs :: rpre =>
-    match fmt_step fs with
-    | Some (x', src, nf) => if str_eqb x x' then Some (rev rpre, x, src, nf) else None
-    | None => None
+  | EvReturnNil :: Try (EvWriteCaller KWrite _ x) EvReturnErr :: rest =>
+    let (rfp, rpre) := span_fmt rest in
+    match fmt_sym (block (rev rfp)) None with
+    | Some (Some (x', src, k)) =>
+      if str_eqb x x' then
+        match k with
+        | OFmt => Some (rev rpre, x, src, false)
+        | OSel => Some (rev rpre, x, src, true)
+        | ORaw => None
+        end
+      else None
+    | _ => None
     end
   | _ => None
   end.
@@ -294,23 +355,44 @@ Definition delegate_target (body : list stmt) : option str :=
 Definition find_entry (tbl : list entry) (name : str) : option entry :=
   find (fun e => str_eqb (e_name e) name) tbl.
 
+(* follow the delegations from [name] to the entry that does the work (Render ->
+   RenderWithFile -> an unexported helper that was handed the writer ..) *)
+Fixpoint resolve (tbl : list entry) (fuel : nat) (name : str) {struct fuel} : option entry :=
+  match find_entry tbl name with
+  | None => None
+  | Some e =>
+    match e_kind e with
+    | EDelegate =>
+      match fuel with
+      | O => None
+      | Datatypes.S fuel' =>
+        match delegate_target (e_body e) with
+        | Some t => resolve tbl fuel' t
+        | None => None
+        end
+      end
+    | _ => Some e
+    end
+  end.
+
+(* [name] is, or delegates (in any number of steps) to, an EWriter entry whose body passes [io_wf] *)
+Definition writer_entry_ok (tbl : list entry) (name : str) : bool :=
+  match resolve tbl (length tbl) name with
+  | Some e' => match e_kind e' with EWriter => io_wf (e_body e') | _ => false end
+  | None => false
+  end.
+
 Definition entry_wf (tbl : list entry) (e : entry) : bool :=
   match e_kind e with
   | EWriter => io_wf (e_body e)
   | EDelegate =>
     match delegate_target (e_body e) with
-    | Some t => match find_entry tbl t with
-                | Some e' => match e_kind e' with EWriter => io_wf (e_body e') | _ => false end
-                | None => false
-                end
+    | Some t => writer_entry_ok tbl t
     | None => false
     end
   | EFileSys =>
     match save_parts (e_path e) (e_body e) with
-    | Some (en, _) => match find_entry tbl en with
-                      | Some e' => match e_kind e' with EWriter => io_wf (e_body e') | _ => false end
-                      | None => false
-                      end
+    | Some (en, _) => writer_entry_ok tbl en
     | None => false
     end
   end.
